@@ -4,7 +4,7 @@
 set -e
 P=$1; K=$2; NAME=$3
 SRC=/tmp/wt_$P/seeds/$K
-WT=/tmp/verify_$P_$K
+WT=/tmp/verify_${P}_${K}
 rm -rf $WT; git -C /repo worktree add -q --detach $WT HEAD
 cd $WT
 if ! git apply $SRC/patch.diff 2>/dev/null; then echo "PATCH DOES NOT APPLY to current HEAD"; git -C /repo worktree remove --force $WT; exit 1; fi
